@@ -869,6 +869,13 @@ func (e *Exec) inlineCall(st *State, b *ssa.BasicBlock, i int, call *ssa.Call, f
 func (e *Exec) autoInv(env *Env, b *ssa.BasicBlock) []string {
 	var out []string
 	for _, hn := range e.modifiedHeaps(b) {
+		if e.noFrame[hn] || (e.contract != nil && e.contract.NoFrame) {
+			continue
+		}
+		if strings.HasPrefix(hn, "MF_") {
+			out = append(out, fmt.Sprintf("(= %s %s_0)", e.heapSym(env.st, hn), hn))
+			continue
+		}
 		out = append(out, fmt.Sprintf("(forall ((r Int)) (=> (and (<= 0 r) (< r nextRef0)) (= (select %s r) (select %s_0 r))))", e.heapSym(env.st, hn), hn))
 	}
 	var names []string
@@ -912,10 +919,18 @@ func (e *Exec) modifiedHeaps(h *ssa.BasicBlock) []string {
 				mt := x.Map.Type().Underlying().(*types.Map)
 				set[e.sorts.HeapMap(e.sorts.SortOf(mt.Key()), e.sorts.SortOf(mt.Elem()))] = true
 				set[e.sorts.HeapMapDom(e.sorts.SortOf(mt.Key()))] = true
+				set[e.sorts.HeapMapLen()] = true
 			case *ssa.Call:
 				if bi, ok := x.Call.Value.(*ssa.Builtin); ok && bi.Name() == "append" {
 					el := x.Type().Underlying().(*types.Slice).Elem()
 					set[e.sorts.HeapSlice(e.sorts.SortOf(el))] = true
+				}
+				if bi, ok := x.Call.Value.(*ssa.Builtin); ok && bi.Name() == "copy" {
+					el := x.Call.Args[0].Type().Underlying().(*types.Slice).Elem()
+					set[e.sorts.HeapSlice(e.sorts.SortOf(el))] = true
+				}
+				for _, hn := range e.calleeEffects(x) {
+					set[hn] = true
 				}
 			}
 		}
@@ -926,6 +941,152 @@ func (e *Exec) modifiedHeaps(h *ssa.BasicBlock) []string {
 	}
 	sort.Strings(out)
 	return out
+}
+
+// calleeEffects: heaps a contracted call may change (havoc, modifies, model-field updates, assigned locations).
+func (e *Exec) calleeEffects(c *ssa.Call) []string {
+	if e.cs == nil {
+		return nil
+	}
+	key := ""
+	var callee *ssa.Function
+	if c.Call.IsInvoke() {
+		key = e.invokeKey(c)
+	} else if f := c.Call.StaticCallee(); f != nil {
+		key = f.String()
+		callee = f
+	}
+	fc, ok := e.cs.Funcs[key]
+	if !ok {
+		return nil
+	}
+	var out []string
+	for _, hn := range append(append([]string{}, fc.Havoc...), fc.Modifies...) {
+		if mf, ok := e.modelFields[hn]; ok {
+			hn = mf
+		}
+		out = append(out, hn)
+	}
+	for _, u := range fc.Updates {
+		if mf, ok := e.modelFields[u.Field]; ok {
+			out = append(out, mf)
+		}
+	}
+	if fc.usesFresh() {
+		// allocation only: nextRef is havoced by every loop anyway
+	}
+	for _, a := range fc.Assigns {
+		if t := e.staticRootOf(a.E, fc, callee, c); t != nil {
+			out = append(out, e.sorts.HeapObj(e.sorts.SortOf(t)))
+		}
+	}
+	return out
+}
+
+// staticRootOf: the struct type of the object that holds the location x.f.g (the innermost pointer dereferenced).
+func (e *Exec) staticRootOf(x Expr, fc *FuncContract, callee *ssa.Function, call *ssa.Call) types.Type {
+	var typeOf func(x Expr) types.Type
+	typeOf = func(x Expr) types.Type {
+		switch n := x.(type) {
+		case Ident:
+			params := fc.Params
+			if len(params) == 0 && callee != nil {
+				for _, p := range callee.Params {
+					params = append(params, p.Name())
+				}
+			}
+			var ptys []types.Type
+			sig := call.Call.Signature()
+			if call.Call.IsInvoke() {
+				ptys = append(ptys, call.Call.Value.Type())
+			} else if sig.Recv() != nil {
+				ptys = append(ptys, sig.Recv().Type())
+			}
+			for i := 0; i < sig.Params().Len(); i++ {
+				ptys = append(ptys, sig.Params().At(i).Type())
+			}
+			for i, p := range params {
+				if p == n.Name && i < len(ptys) {
+					return ptys[i]
+				}
+			}
+		case Sel:
+			t := typeOf(n.X)
+			if t == nil {
+				return nil
+			}
+			if pt, ok := t.Underlying().(*types.Pointer); ok {
+				t = pt.Elem()
+			}
+			obj, _, _ := types.LookupFieldOrMethod(t, true, nil, n.Name)
+			if obj == nil {
+				if nn, ok := t.(*types.Named); ok {
+					obj, _, _ = types.LookupFieldOrMethod(t, true, nn.Obj().Pkg(), n.Name)
+				}
+			}
+			if v, ok := obj.(*types.Var); ok {
+				return v.Type()
+			}
+		case Call:
+			if n.Fun == "deref" && len(n.Args) == 1 {
+				if t := typeOf(n.Args[0]); t != nil {
+					if pt, ok := t.Underlying().(*types.Pointer); ok {
+						return pt.Elem()
+					}
+				}
+			}
+		}
+		return nil
+	}
+	// walk down the selector chain: the root is the element type of the last pointer on the way to the field
+	var root types.Type
+	var walk func(x Expr)
+	walk = func(x Expr) {
+		if s, ok := x.(Sel); ok {
+			walk(s.X)
+			if t := typeOf(s.X); t != nil {
+				if pt, ok := t.Underlying().(*types.Pointer); ok {
+					root = pt.Elem()
+				} else if st, ok := t.Underlying().(*types.Struct); ok && root != nil {
+					// embedded pointer fields: x.f where f is promoted through an embedded pointer
+					_ = st
+					if obj, path, _ := types.LookupFieldOrMethod(t, true, nil, s.Name); obj != nil && len(path) > 1 {
+						cur := t
+						for _, fi := range path[:len(path)-1] {
+							ft := cur.Underlying().(*types.Struct).Field(fi).Type()
+							if pt, ok := ft.Underlying().(*types.Pointer); ok {
+								root = pt.Elem()
+								cur = pt.Elem()
+							} else {
+								cur = ft
+							}
+						}
+					}
+				}
+				if pt, ok := t.Underlying().(*types.Pointer); ok { // promoted field through embedded pointer of the pointee
+					if obj, path, _ := types.LookupFieldOrMethod(pt.Elem(), true, nil, s.Name); obj != nil && len(path) > 1 {
+						cur := pt.Elem()
+						for _, fi := range path[:len(path)-1] {
+							ft := cur.Underlying().(*types.Struct).Field(fi).Type()
+							if p2, ok := ft.Underlying().(*types.Pointer); ok {
+								root = p2.Elem()
+								cur = p2.Elem()
+							} else {
+								cur = ft
+							}
+						}
+					}
+				}
+			}
+		}
+		if c, ok := x.(Call); ok && c.Fun == "deref" {
+			if t := typeOf(x); t != nil {
+				root = t
+			}
+		}
+	}
+	walk(x)
+	return root
 }
 
 // heapOfAddr: which heap a store through this address expression touches (static)
@@ -1145,12 +1306,21 @@ func (e *Exec) instr(st *State, b *ssa.BasicBlock, ins ssa.Instruction) (stop bo
 		hd := e.sorts.HeapMapDom(e.sorts.SortOf(mt.Key()))
 		e.sorts.HeapMap(e.sorts.SortOf(mt.Key()), e.sorts.SortOf(mt.Elem()))
 		st.assume = append(st.assume, fmt.Sprintf("(= (select %s %s) ((as const (Array %s Bool)) false))", e.heapSym(st, hd), r, e.sorts.SortOf(mt.Key())))
+		st.assume = append(st.assume, fmt.Sprintf("(= (select %s %s) 0)", e.heapSym(st, e.sorts.HeapMapLen()), r))
 		st.vals[x] = r
 	case *ssa.MapUpdate:
 		mt := x.Map.Type().Underlying().(*types.Map)
 		ks, vs := e.sorts.SortOf(mt.Key()), e.sorts.SortOf(mt.Elem())
 		m, k, v := e.val(st, x.Map), e.val(st, x.Key), e.val(st, x.Value)
 		e.oblige(st, "nil", fmt.Sprintf("(not (= %s 0))", m))
+		{ // the number of keys grows by one unless the key was present
+			hl := e.sorts.HeapMapLen()
+			h := e.heapSym(st, hl)
+			present := fmt.Sprintf("(select (select %s %s) %s)", e.heapSym(st, e.sorts.HeapMapDom(ks)), m, k)
+			nh := e.fresh(hl, e.sorts.heaps[hl])
+			st.assume = append(st.assume, fmt.Sprintf("(= %s (store %s %s (ite %s (select %s %s) (+ (select %s %s) 1))))", nh, h, m, present, h, m, h, m))
+			st.heap[hl] = nh
+		}
 		for _, up := range [][2]string{{e.sorts.HeapMap(ks, vs), v}, {e.sorts.HeapMapDom(ks), "true"}} {
 			h := e.heapSym(st, up[0])
 			nh := e.fresh(up[0], e.sorts.heaps[up[0]])
@@ -1318,6 +1488,10 @@ func (e *Exec) instr(st *State, b *ssa.BasicBlock, ins ssa.Instruction) (stop bo
 				if !ok || cur == hn+"_0" || e.noFrame[hn] {
 					continue
 				}
+				if strings.HasPrefix(hn, "MF_") { // world state: unchanged as a whole
+					e.oblige(st, "frame."+hn, fmt.Sprintf("(= %s %s_0)", cur, hn))
+					continue
+				}
 				as := assigned[hn]
 				if len(as) == 0 {
 					e.oblige(st, "frame."+hn, fmt.Sprintf("(forall ((r Int)) (=> (and (<= 0 r) (< r nextRef0)) (= (select %s r) (select %s_0 r))))", cur, hn))
@@ -1357,6 +1531,9 @@ func (e *Exec) call(st *State, c *ssa.Call) string {
 		case "len":
 			if e.sorts.SortOf(c.Call.Args[0].Type()) == "String" {
 				return fmt.Sprintf("(str.len %s)", args[0])
+			}
+			if _, isMap := c.Call.Args[0].Type().Underlying().(*types.Map); isMap {
+				return fmt.Sprintf("(select %s %s)", e.heapSym(st, e.sorts.HeapMapLen()), args[0])
 			}
 			return fmt.Sprintf("(len %s)", args[0])
 		case "append":
@@ -1860,14 +2037,14 @@ func (e *Exec) applyContract(st *State, call *ssa.Call, fc *FuncContract, args [
 			}
 		}
 	}
+	c.oldHeaps = map[string]string{}
+	for k, v := range st.heap {
+		c.oldHeaps[k] = v
+	}
 	for i, cl := range fc.Requires {
 		if t, ok := e.safeCompile(c, cl, "requires of "+fc.Name); ok {
 			e.obligeCl(st, fmt.Sprintf("pre@%s.%d", shortName(fc.Name), i+1), t, &fc.Requires[i])
 		}
-	}
-	c.oldHeaps = map[string]string{}
-	for k, v := range st.heap {
-		c.oldHeaps[k] = v
 	}
 	if fc.usesFresh() { // results declared fresh lie between the allocation counter before and after the call
 		nn := e.fresh("nextRef", "Int")
